@@ -62,6 +62,8 @@ pub fn mem() -> &'static mut PhysMem {
 }
 
 /// Deterministic non-zero junk: every word looks like a present entry pointing at a guard frame.
+/// Most distinct pages of the recursive region the software MMU maps during one call.
+pub const TLB_CAP: usize = 16384;
 pub const GUARD_FRAME: u64 = 0x000d_ead0_0000_0000 & ADDR_MASK;
 pub fn junk_word(frame: u64, i: usize) -> u64 {
     let h = (frame >> 12).wrapping_mul(0x9E37_79B9_7F4A_7C15).wrapping_add((i as u64).wrapping_mul(0x1234_5678_9ABC_DEF1));
@@ -214,7 +216,7 @@ impl PhysMem {
         let slot = self.slots[&frame];
         let va = WINDOW_BASE + (frame - self.window_p0);
         unsafe {
-            assert!(mmap_fixed(va, PAGE, libc::PROT_READ | libc::PROT_WRITE, libc::MAP_SHARED, self.fd, slot as u64 * PAGE));
+            assert!(mmap_fixed(va, PAGE, libc::PROT_READ | libc::PROT_WRITE, libc::MAP_SHARED, self.fd, slot as u64 * PAGE), "harness: window_map({:#x}) failed, errno {}", frame, *libc::__errno_location());
         }
         if !self.window_mapped.contains(&frame) {
             self.window_mapped.push(frame);
@@ -260,8 +262,16 @@ impl PhysMem {
     }
     pub fn flush_tlb(&mut self) {
         unsafe {
-            for va in std::mem::take(&mut self.tlb) {
-                mmap_fixed(va, PAGE, libc::PROT_NONE, libc::MAP_PRIVATE | libc::MAP_ANONYMOUS | libc::MAP_NORESERVE, -1, 0);
+            let tlb = std::mem::take(&mut self.tlb);
+            if tlb.len() > 64 {
+                // one mapping over the whole region: cannot fail for lack of VMAs (it only removes some)
+                if let Some(r) = self.reserved_rec {
+                    mmap_fixed((r as u64) << 39, 1 << 39, libc::PROT_NONE, libc::MAP_PRIVATE | libc::MAP_ANONYMOUS | libc::MAP_NORESERVE, -1, 0);
+                }
+            } else {
+                for va in tlb {
+                    mmap_fixed(va, PAGE, libc::PROT_NONE, libc::MAP_PRIVATE | libc::MAP_ANONYMOUS | libc::MAP_NORESERVE, -1, 0);
+                }
             }
         }
     }
@@ -307,6 +317,12 @@ unsafe fn pf_hook(addr: u64, write: bool, _rip: u64) -> bool {
     if m.mmu_on {
         let (lo, hi) = m.rec_region();
         if addr >= lo && addr < hi {
+            if m.tlb.len() >= TLB_CAP {
+                // a call that touches this many distinct table pages is running wild (e.g. following
+                // junk entries through poison pages): stop serving it; the call is abandoned and
+                // reported as an unexpected fault instead of exhausting the process's mappings
+                return false;
+            }
             let cr3 = umh::cpu().cr[3];
             match m.hw_walk(cr3, addr) {
                 Some((pa, _lvl)) => {
